@@ -9,8 +9,15 @@ PROPERTY = 'C02'
 INF = float('inf')
 
 
-class Boom(Exception):
+class _Boom(Exception):
     pass
+
+
+Boom = _Boom
+
+
+class Abort(BaseException):
+    """a failure class that does not derive from Exception (Event.fail accepts any BaseException)"""
 
 
 def h_event(cfg):
@@ -28,6 +35,8 @@ def h_event(cfg):
         nv[0] += 1
         return sym_num(name, sort_of(sorts, i), 0)
 
+    global Boom
+    Boom = Abort if cfg.get('exc') == 'base' else _Boom
     V = sym_int('V')
     fails = target in ('fail', 'child-raise')
     step = [0]
@@ -121,6 +130,10 @@ def h_event(cfg):
     P = box.get('P')
     sd = [d for d in dels if d[0] == 's']
     check('c02.processed-once', len(sd) <= 1)
+    if P is not None:
+        # the trigger / the child reached its end: its outcome must be processed as an event in that instant
+        check('c02.termination-or-trigger-becomes-an-event', len(sd) == 1,
+              'outcome never processed (crash=%s)' % (type(crash[0]).__name__ if crash else None))
     pstep = sd[0][1] if sd else None
     early = [r for r in regs if r[0] != 's' and not r[3]]       # registered before the event was processed
     late = [r for r in regs if r[0] != 's' and r[3]]
@@ -251,6 +264,10 @@ def jobs(tier, seed):
             sorts = ('int', 'real', 'mixed')[wi % 3]
             js.append({'harness': 'event', 'weight': 4 ** len(ws),
                        'cfg': {'target': target, 'waiters': ws, 'sorts': sorts}})
+        if target in ('fail', 'child-raise'):
+            for ws in ([P], [Pn, P], [P, Pn, P], [C, Pn]):
+                js.append({'harness': 'event', 'weight': 4 ** len(ws),
+                           'cfg': {'target': target, 'waiters': ws, 'sorts': 'int', 'exc': 'base'}})
         if not target.startswith('child'):
             for sec in ('succeed', 'fail'):
                 js.append({'harness': 'event', 'weight': 8,
